@@ -334,7 +334,8 @@ def rule_node_groups(chk, prog):
     r = chk.rule("NODE-GROUPS", "OrthoPlanariser::computeNodeGroups interpreted on small sets of collinear edge segments (end to end, overlapping, "
                  "nested, a ZERO-LENGTH segment between two others, two parallel lines): every segment's two end nodes end up together in one "
                  "node group, every group has at least two nodes, and segments on different lines never share a group -- a segment whose close "
-                 "event is processed before its open event stays open for ever and swallows the rest of its line", floor=5)
+                 "event is processed before its open event stays open for ever and swallows the rest of its line; each scene is run twice: with "
+                 "std::sort keeping and with std::sort reversing the order of equivalent elements", floor=10)
     fn = prog.fn("dialect::OrthoPlanariser::computeNodeGroups")
 
     def node(i, x, y):
@@ -346,7 +347,7 @@ def rule_node_groups(chk, prog):
         "zero-length segment first on its line": [(10, 2, 2), (10, 2, 7), (10, 7, 11)],
         "two zero-length segments at one point": [(10, 0, 4), (10, 4, 4), (10, 4, 4), (10, 4, 8)],
     }
-    for name, segs in scenes.items():
+    for name, segs, adversarial in [(n_, s_, adv) for n_, s_ in scenes.items() for adv in (False, True)]:
         nodes, objs = [], []
         for k, (c, lo, hi) in enumerate(segs):
             a, b = node(2 * k, lo, c), node(2 * k + 1, hi, c)
@@ -354,6 +355,11 @@ def rule_node_groups(chk, prog):
             objs.append(default_obj(prog, "dialect::EdgeSegment", {"orientation": 0, "constCoord": Fraction(c), "lowerBound": Fraction(lo),
                                                                     "upperBound": Fraction(hi), "openingNode": a, "closingNode": b}))
         it = Interp(prog, Oracle([]))
+        # std::sort does not promise to keep equivalent elements in order: the second run hands them back reversed (what libstdc++'s
+        # introsort may do beyond 16 elements); std::stable_sort is modelled as stable in both runs
+        it.unstable_sort_reverses = adversarial
+        if adversarial:
+            name = name + " [std::sort returning equivalent events in reverse order]"
         r.count()
         try:
             g = it.call(fn, default_obj(prog, "dialect::OrthoPlanariser", {}), None, None, arg_values=[Vec(list(objs), "dialect::EdgeSegment *")])
